@@ -366,7 +366,7 @@ class Queue(Greenlet):
                 groups.append((replies[i], group_env))
         return groups
 
-    def _retry_later(self, id, envelope, replies):
+    def _retry_later(self, id, envelope, replies, before_requeue=None):
         attempts = self.store.increment_attempts(id)
         wait = self.backoff(envelope, attempts)
         if wait is None:
@@ -383,6 +383,8 @@ class Queue(Greenlet):
         else:
             when = time.time() + wait
             self.store.set_timestamp(id, when)
+            if before_requeue:
+                before_requeue()
             self.active_ids.discard(id)
             self._add_queued((when, id))
             return True
@@ -432,12 +434,15 @@ class Queue(Greenlet):
         if tempfails:
             rcpts, replies = zip(*tempfails)
             fail_env = envelope.copy(rcpts)
-            if not self._retry_later(id, fail_env, replies):
-                return
+
+            # The delivered recipients must be recorded before the message
+            # is put back on the timetable, or an immediate retry may read
+            # the old recipient list.
+            def record_delivered():
+                self.store.set_recipients_delivered(id, delivered)
+            self._retry_later(id, fail_env, replies, record_delivered)
         else:
             self.store.remove(id)
-            return
-        self.store.set_recipients_delivered(id, delivered)
 
     def _dequeue(self, id):
         try:
